@@ -140,6 +140,8 @@ def leg_generated(run, thorough):
                           "loading terminates with a database, whatever the order", cr, "gen")
         for g in rr["groups"]:
             events.append({"ev": "loads", "set": "g%d" % gi, "loads": g["loads"], "digest": g["digest"]})
+        if rr["dump"] is None:
+            continue        # every order panicked (reported above): there is no database to compare
         if len(key) > 1:
             run.nontrivial("g:" + ",".join(map(str, key)))
         if rr["diffs"]:
@@ -179,7 +181,7 @@ def leg_bundled(run, thorough, seed):
     for ctx, n in (("bundled", 40 if thorough else 3), ("currency", 10 if thorough else 3)):
         outp = vlib.workfile("c12-perm-%s.ndjson" % ctx)
         dumpdir = os.path.join(vlib.WORK, "c12-dumps")
-        vlib.run_tool([vlib.rv("rv-load"), "perm", "--ctx", ctx, "--n", str(n), "--seed", str(seed), "--out", outp,
+        vlib.run_tool([lk.rv_load(), "perm", "--ctx", ctx, "--n", str(n), "--seed", str(seed), "--out", outp,
                        "--dumpdir", dumpdir], timeout=3000)
         res = vlib.read_ndjson(outp)
         ref = None
@@ -265,7 +267,7 @@ def replay(path, seed):
         inp = vlib.workfile("c12r.ndjson")
         outp = vlib.workfile("c12r-out.ndjson")
         vlib.write_ndjson(inp, [{"perm": case["perm"], "arg": case["arg"], "k": case["k"], "cutseed": seed + case["arg"] * 3 + case["k"]}])
-        vlib.run_tool([vlib.rv("rv-load"), "perm", "--ctx", case["ctx"], "--in", inp, "--out", outp,
+        vlib.run_tool([lk.rv_load(), "perm", "--ctx", case["ctx"], "--in", inp, "--out", outp,
                        "--dumpdir", os.path.join(vlib.WORK, "c12-dumps")], timeout=600)
         r = vlib.read_ndjson(outp)[0]
         log("now: %s" % json.dumps({k: r.get(k) for k in ("equal", "diff", "crash", "dump")}))
